@@ -285,6 +285,31 @@ def rule_counts(rep, repo):
               loc=qu.loc(fn), instance=cfg)
   if ngeo < 100:
     raise AnalysisError("instance-count only %d concrete geometries" % ngeo)
+  # ... and in ONE interpreter, one layer after the other (all stand-ins
+  # carry the same layer name, as layers of two models analysed in one
+  # process do): a count depends on the layer it is asked for, not on the
+  # layers counted before
+  pe = PE(repo)
+  pe.fork = Fork([])
+  stale = []
+  nseq = 0
+  for cname, layer, ishape, want, cfg in concrete_layers():
+    nseq += 1
+    try:
+      r = pe.call(pe.lookup_global("get_operation_count", qu),
+                  [layer, ishape], {})
+    except (PyRaise, Unsupported) as e:
+      stale.append("%s: raises %s (alone: %d)" % (cfg, str(e)[:60], want))
+      continue
+    got = r.term[1] if isinstance(r, Tensor) and r.term[0] == "c" else r
+    if not (isinstance(got, (int, F)) and got == want):
+      stale.append("%s: %s (alone: %d)" % (cfg, got, want))
+  rep.check(not stale, "R1", unit, "count-depends-on-earlier-layers",
+            "get_operation_count asked for %d layers of the same name one "
+            "after the other in one process: %d counts differ from the "
+            "count of the layer alone, e.g. %s" % (nseq, len(stale),
+                                                    "; ".join(stale[:2])),
+            loc=qu.loc(fn))
   # estimate.extract_model_operations arms
   es = repo.module(ES)
   efn = es.functions.get("extract_model_operations")
